@@ -19,11 +19,23 @@ func mustVersion(s string) versions.Version {
 // spelledDir returns one of several spellings of the clean absolute directory
 // path dir (which must exist when k selects a relative spelling): clean,
 // trailing separator, dot segment, doubled separator, a "x/.." detour through
-// an existing sibling name, and relative to the working directory.
+// an existing sibling name, relative to the working directory, and through a
+// symlink to the parent directory.
 func spelledDir(dir string, k uint64) (arg string, restore func()) {
 	parent, base := filepath.Dir(dir), filepath.Base(dir)
 	restore = func() {}
-	switch k % 8 {
+	switch k % 9 {
+	case 8:
+		// through a symlinked parent directory
+		alias := filepath.Join(parent, ".alias-of-parent")
+		if parent == "/" {
+			alias = "/.alias-of-root"
+		}
+		os.Remove(alias)
+		if os.Symlink(".", alias) != nil {
+			return dir, restore
+		}
+		return alias + "/" + base, func() { os.Remove(alias) }
 	case 1:
 		return dir + "/", restore
 	case 2:
